@@ -839,6 +839,13 @@ impl<C: Config, Q: Query> Snapshot<C, Q> {
             .insert(*self.query_id(), LastVerified(timestamp), &mut tx)
             .await;
 
+        #[cfg(feature = "verif")]
+        qbice_storage::verif::task_point(
+            "cq_before_submit",
+            qbice_storage::verif::PointKind::Preempt,
+        )
+        .await;
+
         self.engine().submit_write_buffer(tx);
     }
 
@@ -868,6 +875,13 @@ impl<C: Config, Q: Query> Snapshot<C, Q> {
         mut tx: WriteTransaction<C>,
     ) {
         self.upgrade_to_exclusive().await;
+
+        #[cfg(feature = "verif")]
+        qbice_storage::verif::task_point(
+            "sc_after_upgrade",
+            qbice_storage::verif::PointKind::Preempt,
+        )
+        .await;
 
         let query_value_fingerprint = query_value_fingerprint
             .unwrap_or_else(|| self.engine().hash(&query_value));
@@ -1051,6 +1065,13 @@ impl<C: Config, Q: Query> Snapshot<C, Q> {
                     )
                     .await;
             }
+
+            #[cfg(feature = "verif")]
+            qbice_storage::verif::task_point(
+                "sc_before_submit",
+                qbice_storage::verif::PointKind::Preempt,
+            )
+            .await;
 
             self.engine().submit_write_buffer(tx);
         }
